@@ -917,7 +917,9 @@ func TestVerif_C09(t *testing.T) {
 				full = append(full, c09KV{k, c09Vs[1+i%2]})
 				alt = append(alt, c09KV{k, c09V1})
 			}
-			efs = append(efs, editFam{fam: d, fixed: [][]c09KV{full, alt, full[:15], full[1:], append(append([]c09KV{}, full[:7]...), full[9:]...)}})
+			efs = append(efs, editFam{fam: d, fixed: mc.Pick(r,
+				[][]c09KV{full, alt, append(append([]c09KV{}, full[1:7]...), full[9:15]...)},
+				[][]c09KV{full, alt, full[:15], full[1:], append(append([]c09KV{}, full[:7]...), full[9:]...), append(append([]c09KV{}, full[1:7]...), full[9:15]...)})})
 		}
 		for _, ef := range efs {
 			fam := ef.fam
